@@ -85,8 +85,31 @@ pub fn replay(ctx: &Ctx, path: &str) -> i32 {
             return 2;
         }
     };
-    let a = f(ctx, case);
+    let mut a = f(ctx, case);
+    if let Err(e) = &a {
+        if e.contains("re-derived") || e == "kind" || e.contains("unknown case kind") || case["kind"].as_str() == Some("watchdog") {
+            // cases that are one element of a complete enumeration: re-run the (deterministic) quick check in replay mode
+            // (nothing is written) and report whether the artefact's key is violated again
+            let key = v["key"].as_str().unwrap_or("").to_string();
+            println!("REPLAY re-running the complete check of {} (key {})", ctx.prop, key);
+            let code = run(ctx);
+            return match code {
+                0 => {
+                    println!("REPLAY property={} holds on this case", ctx.prop);
+                    0
+                }
+                1 => {
+                    println!("VIOLATION property={} replay={}", ctx.prop, path);
+                    1
+                }
+                c => c,
+            };
+        }
+    }
     let b = f(ctx, case);
+    if a.is_ok() && b.is_err() {
+        a = b.clone();
+    }
     match (a, b) {
         (Ok((va, oa)), Ok((vb, ob))) => {
             println!("REPLAY observation: {}", oa);
